@@ -75,7 +75,7 @@ MANIFEST = {
 U64 = 2 ** 64 - 1
 DEF = [b'cardinal', b'decimal', b'none', b'symbol', b'true', b'none', b'none', b'none', b'none', b'none']
 KEYWORDS = [b'zero', b'one', b'two', b'few', b'many', b'other']
-LANGS = ('en', 'pl', 'ru', 'fr', 'ar', 'lt', 'cs', 'ja')
+LANGS = ('en', 'pl', 'ru', 'fr', 'ar', 'lt', 'cs', 'ja', 'pt', 'pt-PT')
 GUARD = 15
 
 
@@ -291,6 +291,10 @@ def cldr_category(lang, ty, n, i, v, w, f, t):
         if lang == 'fr':
             return b'one' if n == 1 else b'other'       # one: n = 1
         return b'other'                                 # pl, ru, ar, lt, cs, ja: other only
+    if lang == 'pt':
+        return b'one' if i in (0, 1) else b'other'                            # CLDR 37 pt: one: i = 0..1
+    if lang == 'pt-PT':
+        return b'one' if i == 1 and v == 0 else b'other'                      # CLDR 37 pt_PT: one: i = 1 and v = 0
     if lang == 'en':
         return b'one' if i == 1 and v == 0 else b'other'                      # one: i = 1 and v = 0
     if lang == 'pl':
@@ -346,6 +350,8 @@ def negotiate(locales):
     """PluralRules::construct: the bundle's FIRST locale, looked up among the locales with rules, default en"""
     if not locales:
         return 'en'
+    if locales[0] == b'pt-PT':
+        return 'pt-PT'                      # the only region with its own plural rule set
     lang = locales[0].decode().split('-')[0].lower()
     return lang if lang in LANGS else 'en'
 
@@ -868,7 +874,7 @@ def gen_number_options(rng, tier):
 
 
 LOCALE_FORMS = {'en': ['en', 'en-US', 'en-GB'], 'pl': ['pl', 'pl-PL'], 'ru': ['ru', 'ru-RU'], 'fr': ['fr', 'fr-CA'], 'ar': ['ar', 'ar-EG'],
-                'lt': ['lt', 'lt-LT'], 'cs': ['cs', 'cs-CZ'], 'ja': ['ja', 'ja-JP']}
+                'lt': ['lt', 'lt-LT'], 'cs': ['cs', 'cs-CZ'], 'ja': ['ja', 'ja-JP'], 'pt': ['pt', 'pt-BR', 'pt-AO'], 'pt-PT': ['pt-PT']}
 
 
 def gen_select_grid(rng, tier):
@@ -898,7 +904,7 @@ def gen_select_grid(rng, tier):
                 s = lit_str(i, f)
                 cases.append(sel_case([rng.choice(LOCALE_FORMS[lang])], sel_fn(v_numstr(s), [('type', ('s', 'ordinal'))])))
     # unknown locales and no locale at all fall back to en; only the FIRST locale counts
-    for loc in (['xx'], ['und'], [], ['xx', 'pl'], ['pl', 'en'], ['en', 'pl'], ['ar', 'lt'], ['lt', 'ar'], ['ja', 'en'], ['cs', 'ru', 'pl']):
+    for loc in (['pt-PT', 'pt-BR'], ['pt-BR', 'pt-PT'], ['pt'], ['pt-PT'], ['xx'], ['und'], [], ['xx', 'pl'], ['pl', 'en'], ['en', 'pl'], ['ar', 'lt'], ['lt', 'ar'], ['ja', 'en'], ['cs', 'ru', 'pl']):
         for s in ('0', '1', '2', '3', '5', '11', '12', '21', '22', '1.0', '1.5', '0.0', '100', '101'):
             cases.append(sel_case(loc, sel_lit(s)))
             cases.append(sel_case(loc, sel_fn(v_numstr(s), [('type', ('s', 'ordinal'))])))
@@ -967,7 +973,23 @@ def gen_select_keys(rng, tier):
         form = rng.randrange(3)
         selector = sel_lit(s) if form == 0 else sel_arg(v_numstr(s)) if form == 1 else sel_fn(v_numstr(s), rng.choice(
             [[], [('type', ('s', 'ordinal'))], [('minimumFractionDigits', ('n', str(rng.choice([0, 1, 2, 19, 20, 21]))))]]))
-        cases.append(sel_case([rng.choice(['en', 'pl', 'ru', 'fr', 'ar', 'lt', 'cs', 'ja', 'en-US', 'xx'])], selector, keys, d))
+        cases.append(sel_case([rng.choice(['en', 'pl', 'ru', 'fr', 'ar', 'lt', 'cs', 'ja', 'en-US', 'xx', 'pt-BR', 'pt-PT'])], selector, keys, d))
+    return cases
+
+
+def gen_near_miss_keys(rng, tier):
+    """selectors that are NOT equal to a numeric key but extremely close to it (exact-number matching must be exact, no tolerance)"""
+    cases = []
+    keysets = [[[b'num', b'0'], [b'id', b'one'], [b'id', b'dflt']], [[b'num', b'1'], [b'num', b'0'], [b'id', b'dflt']],
+               [[b'num', b'0.3'], [b'id', b'dflt']], [[b'num', b'-0'], [b'num', b'0.0'], [b'id', b'dflt']]]
+    tiny = ['0.0000000000000001', '-0.00000000000000015', '0.00000000000000001', '0.000000000000000001', '0.0000000001', '-0.0000000000000001']
+    for keys in keysets:
+        for loc in (['en'], ['lt'], ['fr']):
+            for s in tiny:
+                cases.append(sel_case(loc, sel_lit(s), keys))
+                cases.append(sel_case(loc, sel_arg(v_numstr(s)), keys))
+            for x in (1e-16, -1e-16, 5e-324, 1e-300, 2.2e-16, 1e-17):
+                cases.append(sel_case(loc, sel_arg(v_f64(x)), keys))
     return cases
 
 
@@ -996,4 +1018,5 @@ def generate(rng, tier):
     yield ('number-options', gen_number_options(rng, tier))
     yield ('select-grid-per-locale', gen_select_grid(rng, tier))
     yield ('select-keys', gen_select_keys(rng, tier))
+    yield ('near-miss-numeric-keys', gen_near_miss_keys(rng, tier))
     yield ('beyond-the-guard', gen_precision_loss(rng, tier))
